@@ -271,7 +271,8 @@ def g_space():
     out = []
     for T in TYPES:
         for kind in KINDS:
-            for mode in ('ctor-first', 'ctor-second', 'connect-first', 'connect-second', 'ctor-busy', 'connect-busy'):
+            for mode in ('ctor-first', 'ctor-second', 'connect-first', 'connect-second', 'ctor-busy', 'connect-busy',
+                         'connect-first-lookup', 'connect-second-lookup'):
                 out.append({'space': 'G', 'nstype': T, 'kind': kind, 'mode': mode})
     return out
 
@@ -837,6 +838,9 @@ def run_guardrail(ctx, imp, g):
     itype = KIND_ITYPE[kind]
     nd, it = iface_block('g0', SITES[0], kind)
     nodes, ifs = [nd], [it]
+    lookup = mode.endswith('-lookup')       # the connect goes through a handle looked up later, not the one add_network_service returned
+    if lookup:
+        mode = mode[:-len('-lookup')]
     if mode.endswith('second'):
         nd2, it2 = iface_block('g1', SITES[0], 'DedicatedPort')
         nodes, ifs = [nd2, nd], [it2, it]
@@ -862,6 +866,8 @@ def run_guardrail(ctx, imp, g):
             topo.add_network_service(name='gsvc', nstype=ServiceType[T], interfaces=hs)
         else:
             s = topo.add_network_service(name='gsvc', nstype=ServiceType[T], interfaces=hs[:-1] if len(hs) > 1 else None)
+            if lookup:
+                s = topo.network_services['gsvc']
             s.connect_interface(hs[-1])
     except TopologyException as e:
         refused, exc = True, e
